@@ -13,6 +13,11 @@
 // grows — and asserts that none of them moved: an index entry whose
 // representative position went stale is detected at that point.
 #[allow(dead_code)]
+pub mod util {
+	include!(concat!(env!("JSON_SYNTAX_VERIF_DIR"), "/kani/src/util.rs"));
+}
+
+#[allow(dead_code)]
 pub mod table {
 	use core::hash::{BuildHasher, Hasher};
 
